@@ -193,20 +193,26 @@ func cmdSig(args []string) {
 		fmt.Sscanf(o.Name, "C%d", &i)
 		outs[i] = o
 	}
-	drvScen := filepath.Join(*work, "drv.ndjson")
-	w, err := hx.NewNDWriter(drvScen)
-	hx.Must(err)
 	for i, o := range outs {
 		if o.Gen == "ok" {
 			b.WriteOutputs(i, o.Files)
 			b.Reg[i] = fmt.Sprintf("reflect.ValueOf((&gen.C%dImpl{}).Conv)", i)
+		}
+	}
+	hx.Must(b.BuildDriver(nil, false))
+	// the calls are written after the build: a method that does not implement the declared signature (API assertion failed)
+	// is not called with arguments shaped after the declaration
+	drvScen := filepath.Join(*work, "drv.ndjson")
+	w, err := hx.NewNDWriter(drvScen)
+	hx.Must(err)
+	for i, o := range outs {
+		if o.Gen == "ok" && b.BadAPI[i] == "" {
 			w.Write(lines[i])
 		} else {
 			w.Write(map[string]any{"ins": []any{}})
 		}
 	}
 	w.Close()
-	hx.Must(b.BuildDriver(nil, false))
 	recs, _, err := b.RunDriver(drvScen, "seq")
 	hx.Must(err)
 	byID := map[int]map[string]any{}
